@@ -7,7 +7,7 @@ from typing import Dict, List, Optional, Set, Tuple
 
 from ..cfg import CFG
 from ..model import AnchorError, Program, dotted, kw, last_attr, norm, parent, walk_no_nested
-from ..report import Check
+from ..report import Check, guard
 from .common import calls_in, guards_of, need_locals, returns_of, stmt_of
 
 
@@ -548,9 +548,9 @@ def r18_6(prog: Program, chk: Check) -> None:
 
 
 def run(prog: Program, chk: Check) -> None:
-    r18_1(prog, chk)
-    r18_2(prog, chk)
-    r18_3(prog, chk)
-    r18_4(prog, chk)
-    r18_5(prog, chk)
-    r18_6(prog, chk)
+    guard(chk, r18_1, prog, chk)
+    guard(chk, r18_2, prog, chk)
+    guard(chk, r18_3, prog, chk)
+    guard(chk, r18_4, prog, chk)
+    guard(chk, r18_5, prog, chk)
+    guard(chk, r18_6, prog, chk)
